@@ -48,6 +48,7 @@ structure Order where
   marketVersion : Option Int := none    -- order.market_version (argument of place)
   publishTime : Option Time := none
   inBlotter : Bool := false
+  blotterClient : Option Nat := none    -- the client under which Blotter.__setitem__ filed the order (_client_orders key)
   cancelResponses : Nat := 0
   updateResponses : Nat := 0
   -- settlement attributes copied by Blotter.process_closed_market
@@ -418,7 +419,7 @@ def orderReplace (w : World) (oid : Nat) (price : Rat) : Except ReqErr World :=
 /-- `Blotter.__setitem__` -/
 def blotterAdd (w : World) (mid oid : Nat) : World :=
   (w.modifyMarket mid fun m => { m with active := true, blotter := m.blotter ++ [oid], live := m.live ++ [oid] })
-    |>.modifyOrder oid fun o => { o with inBlotter := true }
+    |>.modifyOrder oid fun o => { o with inBlotter := true, blotterClient := o.client }
 
 /-- `Blotter.complete_order` -/
 def blotterComplete (w : World) (mid oid : Nat) : World :=
